@@ -25,6 +25,7 @@ import (
 	"net"
 	"os"
 	"path/filepath"
+	"sort"
 	"strings"
 	"time"
 
@@ -188,6 +189,29 @@ func (c *c11Run) recoverEntry(k, cut int, kind string, rj bool, mc int) string {
 		r.vs.Shutdown()
 		r.closed = true
 	}
+	if kind == "c" {
+		// one more life on the copy that drops every recovered member, joins zz and COMPACTS:
+		// a path.compact left behind by the crash must not leak into the new snapshot
+		if err := r.openSync(rj, mc); err != nil {
+			return fmt.Sprintf("%d.%d.%s=error-open", k, cut, kind)
+		}
+		r.vs.SetClock(snapClock(1))
+		if !r.vs.FlushPending() {
+			r.vs.SetFlushDue(false)
+		}
+		var names []string
+		for n := range r.vs.Alive() {
+			names = append(names, n)
+		}
+		sort.Strings(names)
+		for _, n := range names {
+			r.vs.Dispatch(serf.MemberEvent{Type: serf.EventMemberFailed, Members: []serf.Member{{Name: n}}})
+		}
+		r.vs.Dispatch(serf.MemberEvent{Type: serf.EventMemberJoin, Members: []serf.Member{{Name: "zz", Addr: net.IPv4(10, 9, 9, 9).To4(), Port: 1}}})
+		_ = r.vs.Compact()
+		r.vs.Shutdown()
+		r.closed = true
+	}
 	p, err := r.probe(rj, mc)
 	if err != nil {
 		return fmt.Sprintf("%d.%d.%s=error-probe", k, cut, kind)
@@ -208,8 +232,14 @@ func (c *c11Run) crashAll(rj bool, mc int) string {
 	defer serf.VerifSetFSHook(c.hook)
 	var it []string
 	n := len(c.ops)
+	stale := 0
 	for k := 0; k <= n; k++ {
 		it = append(it, c.recoverEntry(k, 0, "r", rj, mc))
+		// crash points where path.compact exists next to the snapshot (the first three of a life)
+		if k < n && c.ops[k].hasM && c.ops[k].hasT && stale < 3 {
+			stale++
+			it = append(it, c.recoverEntry(k, 0, "c", rj, mc))
+		}
 		if k < n && c.ops[k].op.Op == "write" && c.which(c.ops[k].op.Path) == "m" {
 			for _, cut := range c11Cuts(len(c.ops[k].op.Data)) {
 				it = append(it, c.recoverEntry(k, cut, "r", rj, mc))
@@ -282,6 +312,9 @@ func c11Gen(rng *rand.Rand, tier string) []Case {
 	// the two-event history of the remove..rename finding, every threshold that compacts at once
 	out = append(out, Case{ID: "window", Tags: []string{"fixed"}, Nontrivial: true, Ops: []string{
 		"new sync 0 0", "join 2 " + snapMember(rng, "a"), "compact", "join 3 " + snapMember(rng, "b"), "shutdown 3", "crashall"}})
+	// every user event compacts (nothing alive, threshold 0): the compaction must write the clock just recorded
+	out = append(out, Case{ID: "evclock", Tags: []string{"fixed"}, Nontrivial: true, Ops: []string{
+		"new sync 0 0", "user 5", "user 7", "query 3", "shutdown 1", "crashall"}})
 	n := 30
 	if tier == "thorough" {
 		n = 1500
